@@ -622,6 +622,10 @@ var profiles = map[string]func(b *bias, g *gen){
 }
 
 func Gen(profile string, seed uint64, thorough bool) *Scenario {
+	switch profile {
+	case "map", "atomic", "crypt":
+		return genSsim(profile, seed, thorough)
+	}
 	g := &gen{Rand: rand.New(rand.NewPCG(seed, 0x5eed))}
 	b := defaultBias()
 	if f := profiles[profile]; f != nil {
